@@ -83,9 +83,13 @@ class Transport(StringTransport):
 
 
 class Real(object):
-    def __init__(self, variant, unit, proto=None, preset=False):
+    def __init__(self, variant, unit, proto=None, preset=False, multi=False):
         self.variant = variant
         self.unit = unit
+        # multi: the requests of one connection go to TWO unit ids in turn (a gateway with several devices behind it); a reply
+        # carries the unit id of its request.  TCP variant only (on the serial variant the framer reports the unit as the id).
+        self.multi = bool(multi) and variant == 'dict'
+        self.unit_of = {}
         # preset: every request object handed to execute() already carries a transaction id - the id of a request that is still
         # outstanding (what re-executing an earlier request object, or building one with transaction=..., gives); execute() has
         # to allocate a fresh id all the same
@@ -143,6 +147,7 @@ class Real(object):
     def on_write(self, data):
         if self.variant == 'dict':
             tid, _pid, _len, _uid, fc, addr, _cnt = struct.unpack('>HHHBBHH', data[:12])
+            self.unit_of[tid] = _uid
         else:
             _uid, fc, addr, _cnt = struct.unpack('>BBHH', data[:6])
             tid = int(self.proto.transaction.tid)
@@ -155,7 +160,7 @@ class Real(object):
         rid = self.next_id
         self.next_id += 1
         self.pending_write = rid
-        request = ReadHoldingRegistersRequest(rid & 0xFFFF, 1, unit=self.unit)
+        request = ReadHoldingRegistersRequest(rid & 0xFFFF, 1, unit=(self.unit % 246 + 1) if (self.multi and rid % 2) else self.unit)
         if self.preset:
             table = getattr(self.proto.transaction, 'transactions', None)
             pending = [k for k in table.keys() if k] if isinstance(table, dict) else []
@@ -215,7 +220,7 @@ class Real(object):
     def frame(self, t, tag):
         resp = ReadHoldingRegistersResponse([tag & 0xFFFF])
         resp.transaction_id = t
-        resp.unit_id = self.unit
+        resp.unit_id = self.unit_of.get(t, self.unit) if self.multi else self.unit
         return self.builder.buildPacket(resp)
 
     # --- operations
@@ -302,7 +307,7 @@ class Real(object):
 def run_real(case):
     """returns (segs, final state).  `join` = indices of reply ops delivered in the same dataReceived as the
     reply op just before them"""
-    r = Real(case['variant'], case.get('unit', 1), case.get('proto'), preset=case.get('preset'))
+    r = Real(case['variant'], case.get('unit', 1), case.get('proto'), preset=case.get('preset'), multi=case.get('multi'))
     ops = case['ops']
     join = set(case.get('join', []))
     segs = []
@@ -586,8 +591,8 @@ class Sim(object):
     """generator-side bookkeeping: runs the history on the real client while it is generated, so that replies can
     be aimed at tids that are outstanding (by the trace), answered already, or never issued"""
 
-    def __init__(self, variant, unit, proto=None, preset=False):
-        self.real = Real(variant, unit, proto, preset=preset)
+    def __init__(self, variant, unit, proto=None, preset=False, multi=False):
+        self.real = Real(variant, unit, proto, preset=preset, multi=multi)
         self.ops, self.join = [], []
         self.out = {}        # id -> tid (written, not fired)
         self.answered = []
@@ -608,6 +613,8 @@ class Sim(object):
         c = dict(kind='hist', variant=self.real.variant, unit=self.real.unit, ops=self.ops, join=self.join, tag=tag)
         if self.real.preset:
             c['preset'] = True
+        if self.real.multi:
+            c['multi'] = True
         if self.real.kind in ('udp', 'factory'):
             c['proto'] = self.real.kind
         return c
@@ -635,7 +642,7 @@ def pick_unit(rng):
 
 
 def gen_random(rng, variant, max_out, length, tag='random', proto=None):
-    s = Sim(variant, pick_unit(rng), proto, preset=rng.random() < 0.3)
+    s = Sim(variant, pick_unit(rng), proto, preset=rng.random() < 0.3, multi=rng.random() < 0.3)
     if proto == 'udp' or rng.random() < 0.93:
         s.push(['made'])
     burst = 0
